@@ -14,6 +14,19 @@ holds a paragraph ("text", default) / nothing but the images ("bare") / a paragr
     pdf             own | shared                               (one XObject per anchor / per image key; JPEG only)
     rtf             hex | hex64 | shppict                      (\\pict hex on one line / wrapped every 64 bytes / in \\*\\shppict)
     ppt/xls         blip                                       (OfficeArt BLIP; PNG, JPEG, BMP-as-DIB)
+`env` (docx/pptx/xlsx only, optional; absent = the package exactly as the reference writer emits it) is the relationship
+neighbourhood of the pictures, see verif/props/c14_pkg.py:
+    {"neigh": 1}                  the parts that reference pictures also carry what such parts usually carry: xlsx sheets a cell
+                                  comment (vmlDrawing + comments relationships, legacyDrawing) and an external cell hyperlink, docx
+                                  a theme part, pptx slides speaker notes and review comments; every picture an external hlinkClick
+                                  whose URL looks like an image part name
+    {"rels": "nfirst" | "rev"}    order of the Relationship elements in every .rels part: non-picture relationships first
+                                  (pictures keep their order) / whole list reversed
+    {"ids": "swap"}               relationship ids are opaque: the k-th and the (n+1-k)-th id of every .rels part change places
+All 9 combinations other than the writer's own are enumerated over every layout of 0..K anchors of ENV_KINDS (quick: png 1x1,
+jpeg 640x480; thorough: + gif 3x2), every identity pattern and split, for the reference shapes relative / shared /
+dup_rid_parts (thorough: + parent, absolute; + the "bare" variant for <= 1 anchor).  None of it changes document order, the
+picture bytes or the anchoring, so the oracle below applies unchanged.
 Enumerated: every image sequence of length 0..K over formats x dimensions, every identity pattern (set partition of
 the anchors, same id => same kind), every split over 1..2 units, per (document format, reference shape); the
 "bare" / "tbl" variants for sequences of length <= 2 with the default reference shape.  Fixtures: every file of the
@@ -43,6 +56,7 @@ import random
 from verif.gen.tokens import Tokens
 from verif.mc import pool as P
 from verif.props import c14_images as IMG
+from verif.props import c14_pkg as PKG
 
 LEVEL = "exploration"
 
@@ -65,6 +79,11 @@ ONLY_REPEATS = {"shared", "dup_rid_parts"}              # identical to "relative
 PAGE_FORMATS = {"pdf", "pptx", "ppt", "odp"}            # unit_number must name the page / slide
 SHEET_FORMATS = {"xlsx", "ods", "xls"}                  # unit_number None is documented; unit views are judged
 FLOW_FORMATS = {"docx", "odt", "rtf", "epub", "odg"}    # no page / slide / sheet units in the library: attribution not judged
+ENV_FORMATS = ("docx", "pptx", "xlsx")                  # OPC packages: relationship neighbourhoods (c14_pkg) are explored
+ENV_KINDS_QUICK = [("png", "1x1"), ("jpeg", "640x480")]
+ENV_KINDS_ALL = [("png", "1x1"), ("jpeg", "640x480"), ("gif", "3x2")]
+ENV_REFS_QUICK = ["relative", "shared", "dup_rid_parts"]
+ENV_REFS_ALL = ["relative", "parent", "absolute", "shared", "dup_rid_parts"]
 FIXTURE_DIR = "/repo/sharepoint2text/tests/resources"
 FIXTURE_MAX_BYTES = 6_000_000
 
@@ -118,6 +137,19 @@ def cases_for(tier, fmt):
     for var in ("bare", "tbl"):
         for units in layouts(kinds, 2 if not quick else 1):
             yield {"units": units, "ref": ref0, "var": var}
+    # relationship neighbourhoods of OPC packages (c14_pkg): what else the .rels parts hold, in which order, under which ids
+    if fmt in ENV_FORMATS:
+        ekinds = ENV_KINDS_QUICK if quick else ENV_KINDS_ALL
+        for ref in (ENV_REFS_QUICK if quick else ENV_REFS_ALL):
+            for units in layouts(ekinds, kmax):
+                if ref in ONLY_REPEATS and not has_repeat(units):
+                    continue
+                for env in PKG.envs():
+                    yield {"units": units, "ref": ref, "var": "text", "env": env}
+        if not quick:
+            for units in layouts(ekinds, 1):
+                for env in PKG.envs():
+                    yield {"units": units, "ref": ref0, "var": "bare", "env": env}
 
 
 # ------------------------------------------------------------------------------------------------ rendering
@@ -130,6 +162,13 @@ def image_bytes(im):
 def _valid_case(fmt, case):
     if fmt not in REFS or case.get("ref") not in REFS[fmt] or case.get("var", "text") not in ("text", "bare", "tbl"):
         return False
+    if "env" in case:
+        # only the canonical spelling (non-default components) of a neighbourhood is a case
+        try:
+            if fmt not in ENV_FORMATS or not case["env"] or PKG.compact(case["env"]) != case["env"]:
+                return False
+        except (ValueError, TypeError, AttributeError):
+            return False
     units = case.get("units")
     if not isinstance(units, list) or not 1 <= len(units) <= 2:
         return False
@@ -163,10 +202,18 @@ def render(fmt, case, tk):
             return []
         return [["tbl", [[[["p", [["t", tk.new("C")]]]], [["p", [["t", tk.new("C")]]]]]]]]
 
+    env = case.get("env")
     if fmt in ("docx", "pptx"):
         from verif.gen import ooxml
-        doc = ["doc", {}, [["unit", text_blocks() + [["img", keyof(im)] for im in u] + tbl_blocks(), {}] for u in units]]
-        return getattr(ooxml, fmt)(doc, imgs, {"image_ref": ref})
+
+        def extras():
+            # neighbours the writer can express itself: speaker notes and review comments of a slide
+            if fmt == "pptx" and env and env.get("neigh"):
+                return {"notes": [tk.new("Z")], "comments": [tk.new("Z")]}
+            return {}
+        doc = ["doc", {}, [["unit", text_blocks() + [["img", keyof(im)] for im in u] + tbl_blocks(), extras()] for u in units]]
+        data = getattr(ooxml, fmt)(doc, imgs, {"image_ref": ref})
+        return PKG.apply(fmt, data, env) if env else data
     if fmt == "xlsx":
         from verif.gen import ooxml
         if var == "tbl":
@@ -174,7 +221,8 @@ def render(fmt, case, tk):
         grid = [] if var == "bare" else None
         doc = ["doc", {}, [["sheet", tk.new("N"), (grid if grid is not None else [[["s", tk.new("C")], ["i", 5]], [["s", tk.new("C")], ["i", 7]]]),
                             {"images": [keyof(im) for im in u]}] for u in units]]
-        return ooxml.xlsx(doc, imgs, {"image_ref": ref})
+        data = ooxml.xlsx(doc, imgs, {"image_ref": ref})
+        return PKG.apply(fmt, data, env) if env else data
     if fmt in ("odt", "odp", "odg", "ods"):
         from verif.gen import odf
         oi = {}
@@ -421,7 +469,11 @@ def judge(fmt, case, obs):
             fails.append(("extra", "returned image(s) the document does not contain: %s; more often than placed: %s; embedded %s"
                           % ([_short(b) for b in extra[:3]], [(_short(b), got[b], placed[b]) for b in over[:3]], [_short(b) for b in ebytes[:4]])))
     if not lacking and not extra and not over and not _is_subseq(gbytes, ebytes):
-        fails.append(("order", "returned order %s is not the document order %s" % ([_short(b) for b in gbytes], [_short(b) for b in ebytes])))
+        pos = {}
+        for i, b in enumerate(ebytes, 1):
+            pos.setdefault(b, i)
+        fails.append(("order", "returned order %s is not the document order %s (anchors, numbered in document order, came back as %s)"
+                      % ([_short(b) for b in gbytes], [_short(b) for b in ebytes], [pos[b] for b in gbytes])))
     # ---- per returned image: content type, size, unit number
     for n, (g, b) in enumerate(zip(G, gbytes)):
         if not isinstance(b, bytes) or b not in spec_of:
@@ -596,6 +648,27 @@ def _renumber(units):
 def shrinks(case):
     if "fixture" in case:
         return
+    if "env" in case:
+        # towards the writer's own package: no neighbourhood at all, then one component at a time (rev -> nfirst -> writer)
+        base = {k: v for k, v in case.items() if k != "env"}
+        yield base
+        e = PKG.norm(case["env"])
+        cands = []
+        if e["neigh"]:
+            cands.append(dict(e, neigh=0, rels=("writer" if e["rels"] == "nfirst" else e["rels"])))
+        if e["rels"] == "rev":
+            cands.append(dict(e, rels="nfirst"))
+        if e["rels"] != "writer":
+            cands.append(dict(e, rels="writer"))
+        if e["ids"] != "seq":
+            cands.append(dict(e, ids="seq"))
+        for c in cands:
+            c = PKG.compact(c)
+            if c and c != case["env"]:
+                yield dict(base, env=c)
+        for sc in shrinks(base):
+            yield dict(sc, env=case["env"])
+        return
     units = case["units"]
     var = case.get("var", "text")
     if case["ref"] not in NO_IMAGE_REFS:
@@ -660,6 +733,11 @@ def embeds(small, big):
             return False
     if small.get("var", "text") != "text" and small.get("var") != big.get("var", "text"):
         return False
+    if "env" in small:
+        # a shape that needs a neighbourhood is only explained by a case with the same non-default components
+        be = big.get("env") or {}
+        if any(be.get(k) != v for k, v in small["env"].items()):
+            return False
     su, bu = small["units"], big["units"]
     if len(su) > len(bu):
         return False
@@ -741,12 +819,17 @@ def run(ctx):
            "rule": "every sequence of 0..K image anchors (K = 2 quick / 3 thorough) over image format x dimension (quick: 1x1, 640x480; "
                    "thorough: + 3x2), every identity pattern (same image used by several anchors), every split over 1..2 units, per "
                    "(document format, reference shape) for 12 container formats; 'bare' and 'tbl' unit variants for <= 1 (quick) / 2 anchors; "
+                   "docx/pptx/xlsx additionally under every relationship neighbourhood of c14_pkg (neighbour relationships x order of the "
+                   ".rels parts x id assignment, 9 combinations) for every layout of 0..K anchors over ENV kinds and reference shapes; "
                    "every supported fixture file (inclusion clauses only); each package written by the reference writers, extracted by "
                    "the real extractor and judged against the bytes the harness embedded; distinct_nontrivial = distinct "
                    "(format, reference shape, anchors, images returned, units, tables, failing clauses) classes",
            "per_format": per_fmt, "outcomes": dict(sorted(outcomes.items(), key=lambda kv: -kv[1])[:150]), "samples": samples,
            "exhaustive": True, "bounds": {"tier": ctx.tier, "K": 2 if ctx.quick else 3, "dims": DIMS_QUICK if ctx.quick else DIMS_ALL,
-                                          "units": "1..2", "refs": REFS}}
+                                          "units": "1..2", "refs": REFS,
+                                          "env": {"formats": list(ENV_FORMATS), "neighbourhoods": PKG.envs(),
+                                                  "kinds": ENV_KINDS_QUICK if ctx.quick else ENV_KINDS_ALL,
+                                                  "refs": ENV_REFS_QUICK if ctx.quick else ENV_REFS_ALL}}}
     return {"coverage": cov, "failures": fails, "harness_errors": herr, "assumptions": ASSUMPTIONS}
 
 
@@ -764,6 +847,10 @@ ASSUMPTIONS = [
     "odf: the draw:frame is 1cm x 1cm whatever the pixel size of the file; 'pixel size' is judged against the image file header",
     "missing / external references: no image may be returned for them (an entry with empty bytes counts as an image) and nothing may raise",
     "epub: the manifest lists the images in anchor order (document order of an EPUB is not settled between manifest and spine)",
+    "OPC packages: the order of the Relationship elements of a .rels part, the spelling of relationship ids and the presence of "
+    "relationships of other types (comments, vmlDrawing, hyperlink, theme, notesSlide) do not change which pictures a document "
+    "places, nor their order (ECMA-376 part 2: ids are opaque, element order carries no meaning); an external hyperlink whose URL "
+    "ends in .png is not a picture of the document",
     "ppt/xls are not named in the statement's quantifier; they are included because the statement is universal over documents",
     "fixtures that the library refuses or fails on are skipped here (C01 judges them)",
 ]
